@@ -21,7 +21,8 @@ const baseSpecJSON = `{
  "paths": {
   "/things/{pid}": {
    "parameters": [
-    {"name": "X-Shared", "in": "header", "type": "integer", "format": "int64", "minimum": 1, "maximum": 100}
+    {"name": "X-Shared", "in": "header", "type": "integer", "format": "int64", "minimum": 1, "maximum": 100},
+    {"name": "limit", "in": "query", "type": "integer", "format": "int64", "minimum": 1, "maximum": 1000}
    ],
    "post": {
     "operationId": "postThing",
@@ -62,7 +63,9 @@ const baseSpecJSON = `{
     "operationId": "getThing",
     "tags": ["things"],
     "parameters": [
-     {"name": "pid", "in": "path", "required": true, "type": "integer", "format": "int64", "minimum": 1, "maximum": 100}
+     {"name": "pid", "in": "path", "required": true, "type": "integer", "format": "int64", "minimum": 1, "maximum": 100},
+     {"name": "limit", "in": "query", "type": "integer", "format": "int64", "minimum": 1, "maximum": 100},
+     {"name": "ovs", "in": "query", "type": "string", "minLength": 2, "maxLength": 10, "pattern": "^[a-z]+$"}
     ],
     "responses": {
      "200": {"description": "ok", "schema": {"type": "object", "properties": {"id": {"type": "integer"}, "state": {"type": "string", "enum": ["on", "off"]},
